@@ -125,8 +125,10 @@ Fixpoint parse_seq (ts : list tok) : list (list byte) * list sterm * list tok :=
   | _ => ([], [], ts)
   end.
 
-(* the char of a character constant is a C `char': bytes above 127 are negative codes *)
-Definition char_code (c : byte) : Z := if c <? 128 then Z.of_nat c else (Z.of_nat c - 256)%Z.
+(* the byte of a character constant is read as unsigned char (fact of the source); read as a plain C `char' the
+   bytes above 127 would be negative codes, which set_sgrammar takes for "no code given" *)
+Definition char_code (c : byte) : Z :=
+  if char_const_code_unsigned then Z.of_nat c else if c <? 128 then Z.of_nat c else (Z.of_nat c - 256)%Z.
 
 Fixpoint fix_char_codes (tms : list sterm) : list sterm :=
   match tms with
